@@ -84,6 +84,10 @@ pub struct Case {
     /// bitmask over the submitted batch: these messages were honestly approved in an earlier call
     #[serde(default)]
     pub pre_approved: u8,
+    /// before the studied submission the proving set honestly approves an unrelated message and passes a
+    /// standalone proof check (an accepted proof must leave nothing behind that helps a later one)
+    #[serde(default)]
+    pub warmup: bool,
 }
 
 fn msgspec() -> impl Strategy<Value = MsgSpec> {
@@ -154,7 +158,7 @@ impl Property for C01 {
         "C01"
     }
     fn rule(&self) -> &'static str {
-        "proptest single cases: gateway config (domain, retention 0-3 or u64::MAX(-1), 1-3 initial sets, 0-4 honest rotations), signer sets of 1-8 keys with weights from {1, small, 2^64, u128::MAX - rest} and thresholds from {1, total, total-1, subset sums}, a signing subset (full / exactly the threshold subset / one short / random bitmask / prefix), a batch of 1-4 messages of which any subset may have been honestly approved in an earlier call, and at most one perturbation (digest component, per-signature corruption, declared-set tampering with or without re-signing, batch substitution, never-installed set); both validate_proof and approve_messages. Oracle: digest = own keccak(domain || keccak(ownXDR(set)) || keccak(ownXDR((kind,batch)))), acceptance = set installed and within retention and weight of verify_strict-valid signatures >= threshold. non-trivial = perturbation present, or signing subset not a prefix, or signed weight == threshold exactly; distinct by Debug hash"
+        "proptest single cases: gateway config (domain, retention 0-3 or u64::MAX(-1), 1-3 initial sets, 0-4 honest rotations), signer sets of 1-8 keys with weights from {1, small, 2^64, u128::MAX - rest} and thresholds from {1, total, total-1, subset sums}, a signing subset (full / exactly the threshold subset / one short / random bitmask / prefix), a batch of 1-4 messages of which any subset may have been honestly approved in an earlier call, optionally right after accepted proofs by the same set, and at most one perturbation (digest component, per-signature corruption, declared-set tampering with or without re-signing, batch substitution, never-installed set); both validate_proof and approve_messages. Oracle: digest = own keccak(domain || keccak(ownXDR(set)) || keccak(ownXDR((kind,batch)))), acceptance = set installed and within retention and weight of verify_strict-valid signatures >= threshold. non-trivial = perturbation present, or signing subset not a prefix, or signed weight == threshold exactly; distinct by Debug hash"
     }
     fn assumptions(&self) -> Vec<&'static str> {
         vec!["a proof whose valid signatures already reach the threshold but which also carries an invalid signature is unconstrained by the statement (Either)"]
@@ -165,9 +169,9 @@ impl Property for C01 {
     fn strategy(&self, _tier: Tier) -> BoxedStrategy<Case> {
         (
             (any::<u8>(), 0u8..6, proptest::collection::vec(setgen(8), 1..4), proptest::collection::vec(setgen(8), 0..5)),
-            (prop_oneof![3 => Just(0u16), 2 => any::<u16>()], maskkind(), proptest::collection::vec(msgspec(), 1..5), perturb(), any::<bool>(), prop_oneof![3 => Just(0u8), 1 => Just(0xffu8), 1 => any::<u8>()]),
+            (prop_oneof![3 => Just(0u16), 2 => any::<u16>()], maskkind(), proptest::collection::vec(msgspec(), 1..5), perturb(), any::<bool>(), prop_oneof![3 => Just(0u8), 1 => Just(0xffu8), 1 => any::<u8>()], prop_oneof![2 => Just(false), 1 => Just(true)]),
         )
-            .prop_map(|((domain, retention, initial, rotations), (prover, mask, batch, perturb, via, pre_approved))| Case {
+            .prop_map(|((domain, retention, initial, rotations), (prover, mask, batch, perturb, via, pre_approved, warmup))| Case {
                 domain,
                 retention,
                 initial,
@@ -178,6 +182,7 @@ impl Property for C01 {
                 perturb,
                 via_validate_proof: via,
                 pre_approved,
+                warmup,
             })
             .boxed()
     }
@@ -430,6 +435,22 @@ impl Property for C01 {
                 cx.label(if already.iter().all(|x| *x) { "whole_batch_already_approved" } else { "part_of_batch_already_approved" });
                 cx.nontrivial();
             }
+        }
+
+        // ---------------- warm-up: honest, accepted proofs by the same set just before
+        if case.warmup && model.live(&prover.hash()) {
+            let unrelated = Message {
+                source_chain: sstr(&env, "warmup-chain"),
+                message_id: sstr(&env, "warmup-id"),
+                source_address: sstr(&env, "w"),
+                contract_address: dests[0].clone(),
+                payload_hash: BytesN::from_array(&env, &h32("warmup", 0)),
+            };
+            gw.approve(&env, &prover, &[unrelated]).map_err(|e| format!("setup: warm-up approval by a live set refused: {}", e))?;
+            let dh = h32("warmup-data", 1);
+            let wp = prover.proof(&env, &digest(&domain, &prover.hash(), &dh), prover.full_mask());
+            ensure_p!(matches!(gw.client.try_validate_proof(&BytesN::from_array(&env, &dh), &wp), Ok(Ok(_))), "setup: warm-up proof check by a live set refused");
+            cx.label("after_accepted_proofs_by_the_same_set");
         }
 
         // ---------------- act
